@@ -18,8 +18,10 @@ def tokens (j : Json) : Json :=
   let model := lexAll Classes.go input
   let implToks := (jarr j "impl").toList.map tokOf
   let v := HL.Spec.LexSpec.judge input implToks
-  Json.mkObj [("model", arrJ tokJ model), ("spec_ok", v.ok), ("in_domain", true),
-    ("known", Json.arr #[]), ("why", v.why), ("nontrivial", !input.isEmpty)]
+  let panicked := (jarr j "impl").any fun t => jhas t "panic"
+  Json.mkObj [("model", arrJ tokJ model), ("spec_ok", v.ok && !panicked), ("in_domain", true),
+    ("known", Json.arr #[]), ("why", if panicked then "the lexer panicked: " ++ ((jarr j "impl").toList.map fun t => jstr t "panic").getLast! else v.why),
+    ("nontrivial", !input.isEmpty)]
 
 def decode (j : Json) : Json :=
   if jhas j "r" then
